@@ -55,6 +55,8 @@ const PROTO_OVERHEAD: usize = 5;
 const MAX_DATA_LEN: usize = MAX_MSG_LEN - VARINT_LEN - PROTO_OVERHEAD;
 
 pub use drop_listener::DropListener;
+#[cfg(libp2p_verif)]
+pub use state::verif_hooks;
 /// A stream backed by a WebRTC data channel.
 ///
 /// To be a proper libp2p stream, we need to implement [`AsyncRead`] and [`AsyncWrite`] as well
